@@ -67,18 +67,10 @@ F7_KINDS = ("default_vs_accel", "default_not_alternating", "default_extreme_lost
             "default_global_extreme_missed", "default_last_not_selected")
 
 
-def KNOWN_F7(case, kind, detail):
-    """F7: the default findap compares each sample with its predecessor, the accelerated one with
-    the last accepted value.  Matches exactly the failures this explains: the default
-    definition breaking the validity predicate, or the two definitions disagreeing, on a signal
-    that contains at least one non-zero step with |dy| <= stol (the oracle puts F7_TAG in the
-    detail of those kinds only for such signals)."""
-    return F7_TAG in detail and kind in F7_KINDS
-
-
-# Switched on once known_findings.json lists F7 with status "known" (the runner raises a harness
-# error for a listed known finding without predicate, and ignores predicates of unlisted ids).
-KNOWN = {"F7": KNOWN_F7}
+# F7 (default findap compared each sample with its predecessor, the accelerated one with the last accepted
+# value) was repaired in /repo (8fad638): signals with non-zero sub-tolerance steps are held to the same
+# predicates as all others; the tag only marks that class in the failure text.
+KNOWN = {}
 
 
 # ====================================================================== findap
